@@ -2,6 +2,7 @@
 CONSTANT SubmeshStep = 48
 CONSTANT AnimBoneRule = "table"
 CONSTANT RelocAdvanceAlways = TRUE
+CONSTANT CollectSkipRule = "all-empty"
 CONSTANT SaveTruncates = TRUE
 CONSTANT ViewBatchBytes = 24
 INIT Init
